@@ -14,6 +14,7 @@ import (
 	_ "go.nanomsg.org/mangos/v3/vh/vipc"
 	"go.nanomsg.org/mangos/v3/vh/c07"
 	"go.nanomsg.org/mangos/v3/vh/c13"
+	"go.nanomsg.org/mangos/v3/vh/c19"
 	"go.nanomsg.org/mangos/v3/vh/kinds"
 	"go.nanomsg.org/mangos/v3/vh/kit"
 	"go.nanomsg.org/mangos/v3/vh/ledger"
@@ -44,6 +45,7 @@ func init() {
 			{Name: "frame-length-field", Mode: "enum", Reset: kit.ResetGlobals, Body: frameLengths, NeedCounters: []string{"too-long-dropped-at-once", "in-limit-delivered", "negative-dropped", "limit-set-after-listen"}},
 			{Name: "frame-truncated-everywhere", Mode: "enum", Reset: kit.ResetGlobals, Body: frameTruncated, NeedCounters: []string{"truncated-nothing-delivered"}},
 			{Name: fmt.Sprintf("protocol-bodies-len<=%d", L), Mode: "enum", Reset: kit.ResetGlobals, Body: func() { protoBodies(L) }, NeedCounters: []string{"hostile-dropped", "hostile-delivered-as-reference", "control-still-served"}},
+			{Name: "receive-limit-on-listeners-and-dialers", Mode: "enum", Reset: kit.ResetGlobals, Body: c19.MaxRecv, NeedCounters: []string{"limit-enforced", "unrelated-options-in-the-map"}},
 			{Name: "replayed-answers", Mode: "enum", Reset: kit.ResetGlobals, Body: replayedAnswers, NeedCounters: []string{"replay-dropped"}},
 			{Name: "response-vs-survey-expiry", Mode: "sched", Bound: b, Reset: kit.ResetGlobals, Cfg: vsched.Config{EarlyTimers: true}, Body: c07.SchedExpiry},
 			{Name: "response-vs-new-survey", Mode: "sched", Bound: b, Reset: kit.ResetGlobals, Body: c07.SchedNewSurvey},
@@ -58,6 +60,7 @@ func init() {
 			{Name: "stream-limit-changed-after-listen", Mode: "enum", Reset: kit.ResetGlobals, Body: limitAfterListen, NeedCounters: []string{"delivered-at-new-limit"}},
 			{Name: "stream-ends-inside-the-frame-after-a-complete-message", Mode: "enum", Reset: kit.ResetGlobals, Body: truncatedAfterComplete, NeedCounters: []string{"ended-right-after-length-prefix", "ended-inside-payload"}},
 			{Name: "stream-full-duplex", Mode: "sched", Bound: map[string]int{"quick": 2, "thorough": 3}[tier], Reset: kit.ResetGlobals, Body: fullDuplex},
+			{Name: "stream-frames-arrive-while-a-write-is-stalled", Mode: "enum", Reset: kit.ResetGlobals, Body: duplexStalled, NeedCounters: []string{"stalled-write-exact"}},
 			{Name: "stream-write-fails-then-retransmission", Mode: "enum", Reset: kit.ResetGlobals, Body: writeFailsThenRetransmit, NeedCounters: []string{"retransmitted-intact"}},
 		}
 	})
@@ -65,6 +68,7 @@ func init() {
 		return []*vexplore.Scenario{
 			{Name: "sp-header-and-framing-all-protocols", Mode: "enum", Reset: kit.ResetGlobals, Body: wireAllProtocols, NeedCounters: []string{"header-exact", "frame-exact"}},
 			{Name: "full-duplex-framing", Mode: "sched", Bound: map[string]int{"quick": 2, "thorough": 3}[tier], Reset: kit.ResetGlobals, Body: fullDuplex},
+			{Name: "frames-arrive-while-a-write-is-stalled", Mode: "enum", Reset: kit.ResetGlobals, Body: duplexStalled, NeedCounters: []string{"stalled-write-exact"}},
 			{Name: "handshake-aborted-then-conformant-peer", Mode: "enum", Reset: kit.ResetGlobals, Body: c13.TCPAborted},
 			{Name: "two-connections-one-stalled-framing", Mode: "enum", Reset: kit.ResetGlobals, Body: stalledFraming, NeedCounters: []string{"stalled-stream-exact"}},
 		}
@@ -1037,6 +1041,47 @@ func fullDuplex() {
 		}
 	}
 	kit.Observe("%s ok", scheme)
+	kit.Must("Close", func() { _ = v.x.S.Close() })
+}
+
+// duplexStalled: the peer does not read for a while, so a write of mangos is stuck in the
+// transport (the bytes are taken when the peer reads again); meanwhile frames of other sizes arrive
+// on the same connection and are received.  What the peer finally reads is exactly the frames of
+// the messages sent, and what was received is exactly what the peer sent.
+func duplexStalled() {
+	pickScheme()
+	k := kinds.ByName([]string{"pair", "bus"}[kit.ChooseFree(2)])
+	nin := 1 + kit.ChooseFree(3)
+	v := open(k, -1)
+	h := v.goodPeer("duplex")
+	hl := len(h.Written())
+	h.StallWrites(true)
+	outs := [][]byte{pat(31, 5), pat(32, 70)}
+	var want []byte
+	for _, o := range outs {
+		want = append(want, frame(o)...)
+		c := kit.Start("Send", func() (interface{}, error) { return nil, kit.SendBytes(v.x.S, o) })
+		kit.Quiesce()
+		if !c.Done() || c.Err != nil {
+			kit.Failf("stream-send", "%s: Send of %d bytes while the peer is not reading: done=%v %s", k.Name, len(o), c.Done(), kit.ErrName(c.Err))
+		}
+	}
+	for i := 0; i < nin; i++ {
+		in := pat(40+i, 110+i*200)
+		h.Feed(frame(in))
+		c := kit.Start("Recv", func() (interface{}, error) { return kit.Recv(v.x.S) })
+		kit.Quiesce()
+		if !c.Done() || c.Err != nil || !bytes.Equal(c.Val.([]byte), in) {
+			kit.Failf("duplex-received-differs", "%s/%s: a frame of %d bytes arrived while a write was stuck: Recv done=%v %s", scheme, k.Name, len(in), c.Done(), kit.ErrName(c.Err))
+		}
+	}
+	h.StallWrites(false)
+	kit.Quiesce()
+	if w := h.Written()[hl:]; !bytes.Equal(w, want) {
+		kit.Failf("duplex-bytes-written-differ", "%s/%s: a write was stuck while %d frame(s) arrived; afterwards the peer read %d bytes for two messages of %d and %d bytes, first difference from the two frames at byte %d (% x ...)", scheme, k.Name, nin, len(w), len(outs[0]), len(outs[1]), firstDiff(w, want), clip(w, 12))
+	}
+	kit.Count("stalled-write-exact")
+	kit.Observe("%s %s %d", scheme, k.Name, nin)
 	kit.Must("Close", func() { _ = v.x.S.Close() })
 }
 
